@@ -52,14 +52,17 @@ RelDiff(r, name, t, P) ==
           \cup (IF G!WithinUnits(p.m, v, P, 1) THEN {} ELSE {<<"within", name, P, X, Grade(p.m, v, P)>>})
           \cup (IF G!NoDigitLost(p, v, P) THEN {} ELSE {<<"lost", name, P, X, 0>>})
 
+(* the same value as a later item of a response ("tr2") and through SCPI_NumberToStr ("tn"), where recorded *)
+More(r) == (IF "tr2" \in DOMAIN r THEN {<<"tr2", r.tr2, Prec(r)>>} ELSE {}) \cup (IF "tn" \in DOMAIN r THEN {<<"tn", r.tn, Prec(r)>>} ELSE {})
+
 Diff(r) ==
   IF r.c # "fin"
   THEN UNION {IF G!SpecialOk(r.c, r.neg, x[2]) THEN {} ELSE {<<"spelling", x[1], x[3], 0, 0>>} :
-              x \in {<<"ts", r.ts, Prec(r)>>, <<"tr", r.tr, Prec(r)>>}
+              x \in {<<"ts", r.ts, Prec(r)>>, <<"tr", r.tr, Prec(r)>>} \cup More(r)
                     \cup (IF "tp" \in DOMAIN r THEN {<<"tp", r.tp[i], i>> : i \in 1..Len(r.tp)} ELSE {})}
   ELSE IF r.cfg = "printf"
-  THEN ExactDiff(r, "ts", r.ts) \cup ExactDiff(r, "tr", r.tr)
-  ELSE RelDiff(r, "ts", r.ts, Prec(r)) \cup RelDiff(r, "tr", r.tr, Prec(r))
+  THEN ExactDiff(r, "ts", r.ts) \cup ExactDiff(r, "tr", r.tr) \cup UNION {ExactDiff(r, x[1], x[2]) : x \in More(r)}
+  ELSE RelDiff(r, "ts", r.ts, Prec(r)) \cup RelDiff(r, "tr", r.tr, Prec(r)) \cup UNION {RelDiff(r, x[1], x[2], Prec(r)) : x \in More(r)}
        \cup (IF "tp" \in DOMAIN r THEN UNION {RelDiff(r, "tp", r.tp[i], i) : i \in 1..Len(r.tp)} ELSE {})
 
 (* one short line per finding (TLC wraps long values) *)
